@@ -110,13 +110,16 @@ class Drv:
                         lines.extend(x.decode('ascii', 'replace') for x in parts)
         finally:
             self.rbuf = buf
-        if len(lines) > want:
-            # should not happen (crash line?)
-            extra = lines[want:]; lines = lines[:want]
-            if any(x.startswith('!CRASH') for x in extra):
+        for k, x in enumerate(lines):
+            if x.startswith('!CRASH'):
+                # the driver's crash handler spoke: it is dying
+                try:
+                    rc = self.p.wait(timeout=30)
+                except Exception:
+                    self.p.kill(); rc = self.p.wait()
                 self.alive = False
-                raise DrvDied(want, lines, extra[0], self._stderr(), self.p.wait())
-        return lines
+                raise DrvDied(k, lines[:k], x, self._stderr(), rc)
+        return lines[:want]
 
 def hx(x):
     return ('-%x' % -x) if x < 0 else ('%x' % x)
